@@ -434,6 +434,7 @@ static void worker_main(const CheckState& cs, int w, size_t start_pos, int out_f
   run_warmups();
   const std::vector<size_t>& stripe = cs.stripes[size_t(w)];
   char b[256];
+  size_t max_runs = getenv("SIM_WORKER_MAX_RUNS") ? size_t(strtoull(getenv("SIM_WORKER_MAX_RUNS"), nullptr, 10)) : (!cs.ss.empty() && std::string(cs.ss[0]->flavour) == "tsan" ? 1500 : 0);
   for (size_t pos = start_pos; pos < stripe.size(); pos++) {
     size_t i = stripe[pos];
     const Scenario& s = *cs.ss[size_t(cs.order[i].scen)];
@@ -459,6 +460,10 @@ static void worker_main(const CheckState& cs, int w, size_t start_pos, int out_f
       else { snprintf(b, sizeof b, "R %zu\n", i); emit_result_line(b); }
     }
     if ((pos & 63) == 63) dump_counters();
+    // The ThreadSanitizer runtime never returns what it allocated for finished threads: after some thousand multi-threaded
+    // runs one process fails inside the runtime ("failed to allocate ... errno 12"). Between two runs a worker therefore
+    // retires (status 4) after a bounded number of runs and is replaced by a fresh process that continues at the next position.
+    if (max_runs && pos + 1 - start_pos >= max_runs && pos + 1 < stripe.size()) { dump_counters(); hard_exit(4); }
   }
   dump_counters();
   emit_result_line("D\n");
@@ -653,6 +658,7 @@ static int cmd_check(int argc, char** argv) {
           w.next_pos--; w.current = -1;
           worker_replacements++;
         }
+        else if (WIFEXITED(status) && WEXITSTATUS(status) == 4 && w.current < 0) worker_replacements++;   // retired between two runs (bounded lifetime)
         if (!clean && !reported && !w.violation_reported && w.current >= 0 && !(stop && WIFSIGNALED(status) && WTERMSIG(status) == SIGKILL)) {
           std::string text = tail_of_file(w.errpath, 200000);
           std::string detail;
